@@ -12,6 +12,7 @@ import (
 	"encoding/json"
 	"errors"
 	"fmt"
+	"io"
 	"net"
 	"os"
 	"os/exec"
@@ -709,8 +710,32 @@ func isTimeout(err error) bool {
 	return ok && ne.Timeout()
 }
 
-// runAccept: the deviating client dials the honest listener.
+// keepOpen keeps onet's framing code (which closes the connection it is given when
+// a write fails) from closing the harness's TLS connection: the listener's verdict
+// (alert or close_notify) has to stay readable after a failed write.
+type keepOpen struct{ net.Conn }
+
+func (keepOpen) Close() error { return nil }
+
+// runAccept: the deviating client dials the honest listener.  In TLS 1.3 the
+// client's handshake returns before the listener has judged the certificate; its
+// verdict is an alert (refused), a close_notify (accepted, then dropped) or
+// service.  A listener that refuses while data it has not read is in flight
+// resets the connection, and the reset can overtake the alert: such a run tells
+// nothing ("ambiguous") and is repeated with a longer pause before the first write.
 func runAccept(in *input, w *world, h *honest) (o obs) {
+	for _, grace := range []time.Duration{20 * time.Millisecond, 300 * time.Millisecond, 3 * time.Second} {
+		var ambiguous bool
+		o, ambiguous = runAcceptOnce(in, w, h, grace)
+		if !ambiguous {
+			return o
+		}
+		h.reset()
+	}
+	return obs{Discard: "the listener's verdict could not be read in three attempts (reset without alert): " + o.Reason}
+}
+
+func runAcceptOnce(in *input, w *world, h *honest, grace time.Duration) (o obs, ambiguous bool) {
 	min, max := tlsVersions(in.TLSVer)
 	addr := h.si.Address.NetworkAddress()
 	if usesNonce(in, "stale") {
@@ -735,14 +760,14 @@ func runAccept(in *input, w *world, h *honest) (o obs) {
 		cache = tls.NewLRUClientSessionCache(8)
 		if err := w.primeSession(h, cache, min, max); err != nil {
 			if isHarnessErr(err) {
-				return obs{Discard: err.Error()}
+				return obs{Discard: err.Error()}, false
 			}
 			// the honest first connection must work on any sane tree: an observation
-			return obs{Crash: "hang: " + clip(err.Error())}
+			return obs{Crash: "hang: " + clip(err.Error())}, false
 		}
 		if in.Resume == "restart" {
 			if err := h.restart(w, kHonest, in.UnauthOk); err != nil {
-				return obs{Discard: "honest node: " + err.Error()}
+				return obs{Discard: "honest node: " + err.Error()}, false
 			}
 			addr = h.si.Address.NetworkAddress()
 		}
@@ -770,7 +795,7 @@ func runAccept(in *input, w *world, h *honest) (o obs) {
 		}}
 	c, err := tls.DialWithDialer(&net.Dialer{Timeout: handshakeDeadline}, "tcp", addr, cfg)
 	if buildErr != nil {
-		return obs{Discard: "cannot build chain: " + buildErr.Error()}
+		return obs{Discard: "cannot build chain: " + buildErr.Error()}, false
 	}
 	if err != nil {
 		// refused during the handshake (TLS 1.2 reports the listener's verdict here)
@@ -780,7 +805,7 @@ func runAccept(in *input, w *world, h *honest) (o obs) {
 		}
 		o.Dispatched = h.count()
 		o.Stamped = w.stamped(h)
-		return o
+		return o, false
 	}
 	defer c.Close()
 	o.Resumed = c.ConnectionState().DidResume
@@ -801,7 +826,12 @@ func runAccept(in *input, w *world, h *honest) (o obs) {
 			}
 		}
 	}()
-	tc := network.VerifC08WrapConn(c, w.suite)
+	// give a refusing listener the time to say so before anything is written
+	select {
+	case <-closed:
+	case <-time.After(grace):
+	}
+	tc := network.VerifC08WrapConn(keepOpen{c}, w.suite)
 	sendIdent := func() {
 		switch in.Ident.Kind {
 		case "match":
@@ -865,11 +895,17 @@ func runAccept(in *input, w *world, h *honest) (o obs) {
 	}
 	switch status {
 	case "closed":
-		if rerr != nil && strings.Contains(rerr.Error(), "remote error: tls:") {
+		switch {
+		case rerr != nil && strings.Contains(rerr.Error(), "remote error: tls:"):
 			o.Reason = "alert: " + clip(rerr.Error())
-		} else {
+		case rerr == io.EOF:
+			// close_notify: only an established connection is closed that way
 			o.Handshake = true
-			o.Reason = "handshake accepted, then closed by the honest side: " + clip(fmt.Sprint(rerr))
+			o.Reason = "handshake accepted, then closed by the honest side (close_notify)"
+		default:
+			// reset: the alert or the close_notify was lost
+			o.Reason = "connection reset, verdict unread: " + clip(fmt.Sprint(rerr))
+			return o, true
 		}
 	case "served":
 		o.Handshake = true
@@ -881,7 +917,7 @@ func runAccept(in *input, w *world, h *honest) (o obs) {
 	}
 	o.Dispatched = h.count()
 	o.Stamped = w.stamped(h)
-	return o
+	return o, false
 }
 
 // runDial: the honest router dials the deviating server.
